@@ -117,6 +117,20 @@ def run_shard(spec):
     for i in range(spec["n"]):
         arr = ["DOUBLEUTUBEPARALLEL", "DOUBLEUTUBESERIES", "COAXIAL", "SINGLEUTUBE"][(i + spec["shard"]) % 4] if g.random() < 0.93 else "SINGLEUTUBE"
         ph = GP.draw_phys(g, arr)
+        if arr != "SINGLEUTUBE" and g.random() < 0.2:
+            # thin-walled tubes (copper, stainless, thin plastic): walls of 0.4-1.2 mm, any conductivity class
+            t_thin = float(round(g.uniform(0.0004, 0.0012), 5))
+            k_thin = float(g.choice([0.4, 15.0, 50.0, 380.0]))
+            pp = ph["pipe"]
+            if arr == "COAXIAL":
+                pp["inner_pipe_d_in"] = float(round(pp["inner_pipe_d_out"] - 2 * t_thin, 5))
+                pp["outer_pipe_d_in"] = float(round(pp["outer_pipe_d_out"] - 2 * t_thin, 5))
+                pp["conductivity_inner"] = k_thin
+                pp["conductivity_outer"] = k_thin
+            else:
+                pp["inner_diameter"] = float(round(pp["outer_diameter"] - 2 * t_thin, 5))
+                pp["conductivity"] = k_thin
+            res["thin_walled"] = res.get("thin_walled", 0) + 1
         H = float(round(g.uniform(30, 300), 1))
         flow = float(round(10 ** g.uniform(math.log10(0.02), math.log10(2.0)), 4))
         case = {"phys": ph, "H": H, "flow": flow}
@@ -200,6 +214,7 @@ def check(tier, seed):
             continue
         rep.evaluations += r["cases"]
         rep.count("skipped_unusable_exchanger", r["skipped"])
+        rep.count("thin_walled_tubes", r.get("thin_walled", 0))
         rep.count("sibling_conversions_same_pipe_other_flow_fluid_roughness_connection", r.get("sibling_conversions", 0))
         rep.evaluations += r.get("sibling_conversions", 0)
         for k2, v2 in r["worst"].items():
